@@ -285,13 +285,20 @@ func checkC08(c *Ctx, r *Report) {
 
 	// decoding into a previously used value must give the same result as into a fresh one
 	// (definite full assignment, shared with C17) for the two-way layers
-	r.Rule("decode-overwrites-everything", "each two-way layer's decoder assigns every field it ever assigns on all success paths, so decode(serialise(v)) does not depend on what the value held before", 7)
+	r.Rule("decode-overwrites-everything", "each two-way layer's decoder assigns every field it ever assigns on all success paths, so decode(serialise(v)) does not depend on what the value held before", 8)
 	{
 		var entries []*ssa.Function
 		for _, L := range twoWayLayers {
 			if fn := c.Method(L.Pkg, L.Type, L.Dec); fn != nil {
 				entries = append(entries, fn)
 			}
+		}
+		// the confidentiality layer is two-way too: whatever state its decoder keeps between
+		// packets (a scratch buffer, a cached pad) must be rewritten on every success path
+		if fn := c.Method("pkg/ipmi", "AES128CBC", "DecodeFromBytes"); fn != nil {
+			entries = append(entries, fn)
+		} else {
+			r.Lost("ipmi.AES128CBC.DecodeFromBytes")
 		}
 		lf := newLenflow(c, 4)
 		for _, fn := range entries {
